@@ -8,6 +8,14 @@ HERE = os.path.dirname(os.path.dirname(os.path.abspath(__file__)))
 
 # id -> (technique, level text, level note, design ref)
 CHECKS = {
+    "C17": (
+        "explicit-state BFS (depth 2 quick / 3 thorough) over sequences of real crop_dim / extend_dim / adjust_dim_width / crop_dim_width / extend_dim_width calls with canonical state hashing, lock-step integer lattice model",
+        "From every initial axis (first x step incl. 0.01, 1/3, 10/3 x length x step attribute or estimated x 1-D/2-D layout) every enabled operation is applied (all crop bound pairs on/between coordinates x 4 closedness settings, "
+        "extend bounds up to 2.5 steps beyond each end, all widths 0..len+3 x 3 positions, out-of-contract requests), recursively from every distinct reached state; after every transition: exact membership/size, "
+        "coordinates on the lattice, surviving samples at their lattice index, per-depth fill value elsewhere, placement, rejection of out-of-contract calls.",
+        "Open extend bounds exactly on a lattice point are only explored on dyadic lattices (membership of a regenerated float coordinate is undefined at the last bit otherwise). Lengths <= 5, reach <= 2.5 steps, depth <= 3.",
+        "DESIGN.md 4/C17",
+    ),
     "C06": (
         "exhaustive enumeration of all ordered pairs of pooled lattice geometries (all 81 type combinations) x admissible buffer pairs x time shifts on the real compute_affinity against Fraction IoU models",
         "All ordered pairs of 69 (quick) / 240 (thorough, incl. a non-dyadic offset lattice) pooled geometries x every admissible buffer pair x the default buffers x shifts {0, 1, 2.5}; "
